@@ -27,6 +27,8 @@ func runC15(c0 *h.Ctx) {
 	// the reference must agree with crypto/ed25519 on public keys before it is used as a bridge
 	B := ref.EdBase()
 	c0.Parallel(8, func(part int, c *h.Ctx) {
+		// the blinding factor and the signing challenge are scalar reductions: results with extreme limbs (shared with C14)
+		c14PatternedReductions(c, part, ref.EdL())
 		nSeeds := 8
 		if c.Thorough() {
 			nSeeds = 40
